@@ -1,5 +1,5 @@
 """C08 - each remote call completes exactly once, with the reply that belongs to it."""
-from ..engine import Spec, assume, check, reached, HarnessError, notrace
+from ..engine import Spec, assume, check, reached, HarnessError, notrace, decode_choice, encode_choice
 from ..runner import Ob
 from ..fakes import FakeTransport, install_clock_reactor, fresh_clock
 
@@ -54,6 +54,9 @@ def obligations(tier):
     for bi in range(len(BODIES)):
         obs.append(Ob('cvt:body%d' % bi, 'cvt', {'body': bi}, timeout=120, path_timeout=30, twin=True, functions=FUNCS[5:6],
                       bounds='declared return signature selector symbolic; integer body values symbolic'))
+    obs.append(Ob('noreply:options', 'noreply', {}, timeout=120, twin=True, functions=FUNCS[:2] + FUNCS[7:],
+                  bounds='a call that expects no reply, with / without a deadline, next to a call that does; serial from a pool of 4 (selector); '
+                         'late and unsolicited replies; clock advanced past every deadline'))
     obs.append(Ob('serial:distinct', 'serial', {}, timeout=60, twin=True, functions=FUNCS[:2] + FUNCS[7:],
                   bounds='serial counter symbolic'))
     return obs
@@ -106,6 +109,48 @@ def build(family, p):
             reached()
         h.__name__ = 'serial'
         return Spec(h, [('S', int)], witnesses=[(1,), (2 ** 32 - 10,)])
+
+    if family == 'noreply':
+        def h(code):
+            si, wd, of, lr = decode_choice(code, [4, 2, 2, 2])
+            S = [1, 7, 2 ** 31, 2 ** 32 - 10][si]
+            with_deadline, other_first, late_reply = bool(wd), bool(of), bool(lr)
+            with notrace():
+                run_nr(S, with_deadline, other_first, late_reply)
+            reached()
+
+        def run_nr(S, with_deadline, other_first, late_reply):
+            if True:
+                clock = fresh_clock()
+                c = _mk_conn(client)
+            message.DBusMessage._nextSerial = S
+            kw = {'timeout': 2.0} if with_deadline else {}
+            if other_first:
+                so = Sink(c.callRemote('/p', 'Other', destination='x.y', timeout=4.0))
+            s1 = Sink(c.callRemote('/p', 'A', destination='x.y', expectReply=False, **kw))
+            if not other_first:
+                so = Sink(c.callRemote('/p', 'Other', destination='x.y', timeout=4.0))
+            check(s1.fired == [('ok', None)], 'a call that expects no reply completes at once with None')
+            serial_a = S + 1 if other_first else S
+            check(serial_a not in c._pendingCalls and len(c._pendingCalls) == 1,
+                  'a call that expects no reply must leave no bookkeeping behind')
+            with notrace():
+                pend = clock.getDelayedCalls()
+            check(len(pend) == 1, 'a completed call must leave no timer behind (only the other call has a deadline)')
+            if late_reply:
+                message.DBusMessage._nextSerial = 9000
+                c.methodReturnReceived(message.MethodReturnMessage(serial_a, body=[1], signature='i'))
+            clock.advance(3)
+            check(s1.fired == [('ok', None)] and so.fired == [], 'a completion was delivered to another call / twice')
+            clock.advance(2)
+            check(len(so.fired) == 1 and so.fired[0][0] == 'err' and isinstance(so.fired[0][1], error.TimeOut),
+                  'the call with a deadline must time out')
+            check(s1.fired == [('ok', None)], 'a completed call completed again')
+            with notrace():
+                pend = clock.getDelayedCalls()
+            check(c._pendingCalls == {} and pend == [], 'bookkeeping left after completion')
+        h.__name__ = 'noreply'
+        return Spec(h, [('code', int)], witnesses=[(0,), (31,), (4,), (13,)])
 
     if family == 'cvt':
         sig, body = BODIES[p['body']]
